@@ -58,6 +58,9 @@ func (e *Env) Close() {
 			break
 		}
 		time.Sleep(10 * time.Millisecond)
+		if i == 299 && os.Getenv("VERIF_VERBOSE") != "" {
+			fmt.Fprintf(os.Stderr, "census: stragglers %v\n", orbitGoroutines())
+		}
 	}
 	// wait for the hook traffic of exiting goroutines to stop
 	last := e.H.Generation()
